@@ -1335,8 +1335,7 @@ Proof. repeat split; vm_compute; reflexivity. Qed.
 
 (* the two former float-discrepancy witnesses (see the header) are now flagged ambiguous
    (one VM evaluation each at Qed: ~18 s and ~77 s) *)
-Example ex_gap_witness1 : gap_fix 1 3520 4488217069661734 = Some (19999, true).
-Proof. vm_cast_no_check (eq_refl (Some (19999, true))). Qed.
+(* ex_gap_witness1 (18 s under vm_compute, minutes under coqchk) lives in Proofs/ReservoirExamples.v *)
 (* a second witness, gap_fix 1 20163 4433315291362389 = Some (83885, true), takes 77 s to evaluate and is left out of the build *)
 
 Example ex_gap_law : (10 - 2) ^ (3 + 1) * 2 ^ 52 < (2 ^ 52 - 2 ^ 51) * 10 ^ (3 + 1) /\
